@@ -12,14 +12,19 @@ use crate::exch_run::{replay_exchange, run_exchanges};
 use crate::gen::*;
 use crate::refmodel::framing::{decide, Framing};
 
-pub const RULE: &str = "full product: request version {1.0,1.1} x request Connection {absent, close, keep-alive, keep-alive+close as two fields} x request kind {GET, HEAD, POST with Content-Length, POST with Expect, GET carrying an Expect header, GET obtained by following a 302 of a POST} x Expect outcome {100 received / late 100 after give-up, silent server + give-up, refused bare, refused with fields} x response version {1.0,1.1} x status {200,204,205,300,304,404,302 and 399 with Location; 101 and 103 as bare answers to Expect} x response framing {none, Content-Length: 0, Content-Length: 3, chunked} x response Connection {absent, close, keep-alive, keep-alive+close, close preceded by an empty-valued field}; every cell explored through the real flow under all mixtures of whole-message and 1-byte arrivals (quick: whole-message arrivals + give-up at every point), verdict read in the Redirect state and in Cleanup; part b: every prefix, cut after the complete Location line, of 3xx heads with Connection / framing fields before and after the Location line (3 methods x 3 statuses x 7 x 4 field sets x every cut): whenever the library accepts such a prefix as a complete response (known finding KF1 of C05) the exchange must end must-close; part c: every cell once more along the canonical schedule with a driver that judges nothing but the final verdict against the ground truth of the server script. distinct = distinct (cell, final observation) pairs";
+pub const RULE: &str = "full product: request version {1.0,1.1} x request Connection {absent, close, keep-alive, keep-alive+close as two fields} x request kind {GET, HEAD, CONNECT (HTTP/1.1), POST with Content-Length, POST with Expect, GET carrying an Expect header, GET obtained by following a 302 of a POST} x Expect outcome {100 received / late 100 after give-up, silent server + give-up, refused bare, refused with fields, refused with a first field line of 280 bytes} x response version {1.0,1.1} x status {200,204,205,300,304,404,302 and 399 with Location; 101 and 103 as bare answers to Expect} x response framing {none, Content-Length: 0, Content-Length: 3, chunked} x response Connection {absent, close, keep-alive, keep-alive+close, close preceded by an empty-valued field}; every cell explored through the real flow under all mixtures of whole-message and 1-byte arrivals (quick: whole-message arrivals + give-up at every point), verdict read in the Redirect state and in Cleanup; part b: every prefix, cut after the complete Location line, of 3xx heads with Connection / framing fields before and after the Location line (3 methods x 3 statuses x 7 x 4 field sets x every cut): whenever the library accepts such a prefix as a complete response (known finding KF1 of C05) the exchange must end must-close; part c: every cell once more along the canonical schedule with a driver that judges nothing but the final verdict against the ground truth of the server script. distinct = distinct (cell, final observation) pairs";
+
+const LONG_WHY: &str = "the-upload-is-not-wanted-here-because-of-a-policy-that-takes-a-very-long-sentence-to-explain-and-then-some-more-words-to-get-beyond-two-hundred-and-fifty-six-bytes-in-a-single-header-field-line-which-is-entirely-legal-if-unusual-0123456789-0123456789-0123456789-0123456789";
 
 pub fn build(tier: Tier) -> Vec<Arc<ExchCfg>> {
     let mut out = Vec::new();
     let conns: [&[&str]; 4] = [&[], &["close"], &["keep-alive"], &["keep-alive", "close"]];
     for rver in ["1.0", "1.1"] {
         for rconn in conns {
-            for kind in ["GET", "HEAD", "POST", "POST-expect", "GET-expect", "GET-via-redirect"] {
+            for kind in ["GET", "HEAD", "POST", "POST-expect", "GET-expect", "GET-via-redirect", "CONNECT"] {
+                if kind == "CONNECT" && rver == "1.0" {
+                    continue; // not defined for HTTP/1.0 (C17)
+                }
                 let (method, expect) = match kind {
                     // the request of a flow obtained by following a redirect of a POST (inherits version,
                     // Connection and Expect headers; its own close conditions start afresh)
@@ -52,7 +57,7 @@ pub fn build(tier: Tier) -> Vec<Arc<ExchCfg>> {
                 } else {
                     None
                 };
-                let outcomes: &[&str] = if expect && method == "POST" { &["100", "silent", "refused-bare", "refused-fields"] } else { &["na"] };
+                let outcomes: &[&str] = if expect && method == "POST" { &["100", "silent", "refused-bare", "refused-fields", "refused-long"] } else { &["na"] };
                 for oc in outcomes {
                     for sver in ["1.0", "1.1"] {
                         for status in [200u16, 204, 304, 404, 302, 101, 103, 300, 205, 399] {
@@ -79,6 +84,13 @@ pub fn build(tier: Tier) -> Vec<Arc<ExchCfg>> {
                                     if *oc == "refused-fields" {
                                         extra.push(("X-Why", "no"));
                                     }
+                                    if *oc == "refused-long" {
+                                        // status line plus first field line well beyond 128 / 256 bytes
+                                        if !(fr == "cl0" && sconn.is_empty() && (status == 200 || status == 404)) {
+                                            continue;
+                                        }
+                                        extra.insert(0, ("X-Why", LONG_WHY));
+                                    }
                                     let body = match fr {
                                         "none" => BodySpec::NoHeader(b"xyz".to_vec()),
                                         "cl0" => BodySpec::Length(vec![]),
@@ -94,7 +106,7 @@ pub fn build(tier: Tier) -> Vec<Arc<ExchCfg>> {
                                     let close = decide(method, status, sver == "1.1", cl.as_deref(), te.as_deref()) == Framing::Close;
                                     let srv: Vec<ServerMsg> = match *oc {
                                         "100" => server(fm, Some(interim_100("1.1", "Continue")), Gate::AfterBody),
-                                        "refused-bare" | "refused-fields" => server(fm, None, Gate::AfterHead),
+                                        "refused-bare" | "refused-fields" | "refused-long" => server(fm, None, Gate::AfterHead),
                                         _ => server(fm, None, Gate::AfterBody),
                                     };
                                     let mut menu = Menu::default_large();
